@@ -80,7 +80,10 @@ def step (cfg : Cfg) (st : St) (line : String) : St × String :=
       let vig := if r.vigil != 0 then 1 else 0
       let store := if engine then "any" else "same"
       let bad := !r.out.defined || r.lock != 0 || r.vigil != 0
-      let flag := if bad then "\t#F:C26-" ++ rpc ++ "-" ++ blame (entriesOf h sh) else ""
+      -- a handler that fails on the ordinary request too is reported once, not per shape
+      let r0 := exec cfg h { top := {}, entries := [{}] }
+      let always := !r0.out.defined || r0.lock != 0 || r0.vigil != 0
+      let flag := if bad then "\t#F:C26-" ++ rpc ++ "-" ++ (if always then "everyrequest" else blame (entriesOf h sh)) else ""
       ({ leaked := st.leaked || r.lock != 0 },
        s!"{cls} p={p} lock={lock} vig={vig} store={store} close=ok{flag}")
   | _ => (st, "bad-op")
